@@ -55,19 +55,22 @@ MCClock == %s
 ''' % (name, ', '.join(modefiles), ', '.join(fset(f) for f in initfiles), ', '.join(initreports), pts(starts), pts(clock))
 
 
-def cfg(props=True, W=0, collectors=(), setmodes=(), setdays=(), xs=(0,), rates=(0,), maxrun=1, maxset=0, maxedit=0, maxcollect=0, maxadv=0):
+def cfg(props=True, W=0, collectors=(), setmodes=(), setpads=('',), setdays=(), xs=(0,), rates=(0,), maxrun=1, maxset=0, maxedit=0, maxcollect=0, maxadv=0):
     t = 'SPECIFICATION Spec\nCHECK_DEADLOCK FALSE\n'
     if props:
         t += ('INVARIANTS TypeOK OneRequestPerWeek RequestsRecorded\n'
               'PROPERTIES RequestOnlyWhenOn UploadableOnlyIf SentOnlyIf OffChangesNothing OtherBehavesLocal SetGet NoNewReadyLeftBehind\n')
     t += 'CONSTANTS\n W = %d\n Collectors = {%s}\n' % (W, ', '.join('"%s"' % c for c in collectors))
     t += ' ModeFiles <- MCModeFiles\n InitFiles <- MCInitFiles\n InitReports <- MCInitReports\n Starts <- MCStarts\n ClockPoints <- MCClock\n'
-    t += ' SetModes = {%s}\n SetDays = %s\n Xs = %s\n Rates = %s\n' % (', '.join(tlaval.to_tla(m) for m in setmodes), iset(setdays), iset(xs), iset(rates))
+    t += ' SetModes = {%s}\n SetPads = {%s}\n SetDays = %s\n Xs = %s\n Rates = %s\n' % (', '.join(tlaval.to_tla(m) for m in setmodes), ', '.join(tlaval.to_tla(m) for m in setpads),
+                                                                       iset(setdays), iset(xs), iset(rates))
     t += ' MaxRun = %d\n MaxSet = %d\n MaxEdit = %d\n MaxCollect = %d\n MaxAdv = %d\n' % (maxrun, maxset, maxedit, maxcollect, maxadv)
     return t
 
 
 MODES3 = ['on', 'off', 'local']
+PADS = ['', 'lead', 'trail', 'tab', 'nl', 'crlf', 'both']     # ModeFile.tla, Pads
+NOINTENT = {'k': 'none', 'w': '', 'd': NODATE, 'pad': False}
 OTHERS = ['ON', 'onn', 'of', 'Local', 'true']
 ALL_DATES = [NODATE, BADDATE, E - 8, E - 7, E - 6, E - 4, E - 3, E - 2, E - 1, E, E + 1, E + 6, E + 7, E + 8]
 ALL_STARTS = [(E - 1, 86399), (E, 0), (E, 1), (E + 1, 0), (E + 6, 86399), (E + 7, 1), (E + 20, 86399), (E + 21, 0), (E + 21, 1), (E + 22, 0), (E + 28, 1)]
@@ -105,17 +108,18 @@ def files_py(v):
 
 
 def state_py(st):
-    return {'modeFile': mf_py(st['modeFile']), 'day': st['day'], 'tod': st['tod'], 'files': files_py(st['files']),
+    return {'modeFile': mf_py(st['modeFile']), 'intent': mf_py(st['intent']) if 'intent' in st else dict(NOINTENT),
+            'day': st['day'], 'tod': st['tod'], 'files': files_py(st['files']),
             'local': sorted(st['local']), 'ready': sorted(st['ready']), 'uploaded': sorted(st['uploaded']),
             'requests': sorted(({'wk': r['wk'], 'run': r['run']} for r in st.get('requests', [])), key=lambda r: (r['run'], r['wk']))}
 
 
 def act_py(a):
-    return {'op': a['op'], 'a': a['a'], 'n1': a['n1'], 'n2': a['n2'], 'ok': a['ok']}
+    return {'op': a['op'], 'a': a['a'], 'p': a.get('p', ''), 'n1': a['n1'], 'n2': a['n2'], 'ok': a['ok']}
 
 
 def norm_obs_state(s):
-    return {'modeFile': s['modeFile'], 'day': s['day'], 'tod': s['tod'],
+    return {'modeFile': s['modeFile'], 'intent': s.get('intent', NOINTENT), 'day': s['day'], 'tod': s['tod'],
             'files': sorted(s['files'], key=lambda f: (f['p'], f['b'], f['e'])),
             'local': sorted(s['local']), 'ready': sorted(s['ready']), 'uploaded': sorted(s['uploaded']),
             'requests': sorted(s['requests'], key=lambda r: (r['run'], r['wk']))}
@@ -136,7 +140,8 @@ def run(ctx):
         'white space around the mode-file text is not part of the value; the mode word is separated from the date by one blank; '
         'tab/newline separated or doubly blank separated contents are not generated (the property is silent on them)',
         'a text that follows the mode word but is not a calendar date counts as "no opt-in date recorded"',
-        'mode arguments given to SetMode are the three modes or clearly invalid words; padded valid words (" on") and non-UTC '
+        'mode arguments given to SetMode are the three modes, clearly invalid words, and both with white space around them (a padded valid '
+        'mode may be rejected or taken without its padding); what follows an accepted SetMode is judged by the mode that was set; non-UTC '
         'as-of times are not generated; SetMode on an unwritable (directory) mode file is not generated',
         'the mode does not change while a program or an uploader runs (mode changes happen between runs)',
         'every count file holds at least one counter; ready/uploaded report names are well-formed dates; the server answers 200 '
@@ -162,7 +167,7 @@ def run(ctx):
     hist_modes = ['Absent', mf_tla('text', 'on', B - 2), mf_tla('text', 'off'), mf_tla('text', 'local'), mf_tla('text', 'ON')]
     hist_clock = [(B + 1, 0), (B + 8, 1), (B + 9, 0), (B + 30, 1)]
     m = mc('MCConsentHist', hist_modes, [[]], [rep([], [], [])], [(B, 1)], hist_clock)
-    hcfg = cfg(W=6, collectors=('c1', 'c2') if th else ('c1',), setmodes=('on', 'off', 'local', 'auto'), setdays=(B - 1, B + 2), xs=(0, 600), rates=(0, 512),
+    hcfg = cfg(W=6, collectors=('c1', 'c2') if th else ('c1',), setmodes=('on', 'off', 'local', 'auto'), setpads=('', 'nl', 'lead', 'trail') if th else ('', 'nl'), setdays=(B - 1, B + 2), xs=(0, 600), rates=(0, 512),
                maxrun=2, maxset=2, maxedit=1, maxcollect=2 if th else 1, maxadv=3 if th else 2)
     r = ctx.tlc('MCConsentHist', files={'MCConsentHist.tla': m}, cfg_text=hcfg, label='Consent-hist', timeout=3000)
     if not r.ok:
@@ -172,15 +177,17 @@ def run(ctx):
     scenarios = []
     expected = {}     # (id, step) -> expected successor state
 
-    def add_table(name, modefiles, filesets, reps, starts, xs, rates):
+    def add_table(name, modefiles, filesets, reps, starts, xs, rates, op='run', **kw):
         m = mc(name, modefiles, filesets, reps, starts)
-        r = ctx.tlc(name, files={name + '.tla': m}, cfg_text=cfg(props=False, xs=xs, rates=rates), dump=True, label=name, count=False)
+        r = ctx.tlc(name, files={name + '.tla': m}, cfg_text=cfg(props=False, xs=xs, rates=rates, **kw), dump=True, label=name, count=False)
         if not r.ok:
             raise Infra('%s: %s\n%s' % (name, r.error, r.out[-2000:]))
         n = 0
         for st in tlaval.read_dump(r.dump):
-            if st['last']['op'] != 'run':
+            if st['last']['op'] != op:
                 continue
+            if op == 'set' and st['last']['p'] != '' and st['last']['a'] in MODES3 and not st['last']['ok']:
+                continue      # the same call as the accepting branch; which branch the code takes is observed
             ini = st['init']
             sid = len(scenarios)
             init = {'modeFile': mf_py(ini['modeFile']), 'day': ini['day'], 'tod': ini['tod'], 'files': files_py(ini['files']),
@@ -199,7 +206,25 @@ def run(ctx):
     ready_sets = [rep([], rd, up) for rd in subsets([E, E + 7, E - 14]) for up in ([], [E])]
     n3 = add_table('MCConsentT3', [mf_tla('text', 'on', d) for d in (NODATE, BADDATE, E - 15, E - 14, E - 1, E, E + 6, E + 7)] + [mf_tla('text', 'local', E - 15), mf_tla('text', 'off', E - 15)],
                    [[], FILESETS[1]], ready_sets, [(E, 0), (E + 6, 86399), (E + 7, 0), (E + 7, 1), (E + 30, 0)], (256,), (1024,))
-    ctx.log('table vectors: dates %d, mode classes %d, ready reports %d' % (n1, n2, n3))
+    # SetMode with every padding of every word, from several mode files
+    n4 = add_table('MCConsentT4', ['Absent', mf_tla('text', 'on', E - 8), mf_tla('text', 'off'), mf_tla('text', 'local', E), mf_tla('text', 'ON'), mf_tla('text', 'off', E - 8, True)],
+                   [[]], [rep([], [], [])], [(E, 1)], (0,), (0,), op='set', setmodes=('on', 'off', 'local', 'auto', 'On', ''), setpads=PADS, setdays=(E - 1, E + 3),
+                   maxrun=0, maxset=1)
+    ctx.log('table vectors: dates %d, mode classes %d, ready reports %d, set arguments %d' % (n1, n2, n3, n4))
+    # directed histories (judged by TLC like every other observation): set a padded mode, then count and upload.  What follows
+    # a SetMode is judged by the mode the user set: data from before the opt-in date, a program run and uploader runs after "off".
+    for ini_mf in ({'k': 'absent', 'w': '', 'd': NODATE, 'pad': False}, {'k': 'text', 'w': 'local', 'd': NODATE, 'pad': False}):
+        for mode in MODES3:
+            for pad in PADS:
+                sid = len(scenarios)
+                scenarios.append({'id': sid, 'src': 'directed', 'w': (ctx.seed + sid) % 7, 'shift': 0, 'variant': sid, 'child': False,
+                                  'init': {'modeFile': ini_mf, 'intent': dict(NOINTENT), 'day': E + 1, 'tod': 1, 'files': [{'p': 'pA', 'b': E - 7, 'e': E, 'n': 1}],
+                                           'local': [], 'ready': [], 'uploaded': [], 'requests': []},
+                                  'steps': [{'a': {'op': 'set', 'a': mode, 'p': pad, 'n1': E - 3, 'n2': 0, 'ok': True}, 'modeFile': ini_mf, 'day': E + 1, 'tod': 1},
+                                            {'a': {'op': 'collect', 'a': 'c1', 'p': '', 'n1': 0, 'n2': 0, 'ok': True}, 'modeFile': ini_mf, 'day': E + 1, 'tod': 1},
+                                            {'a': {'op': 'run', 'a': '', 'p': '', 'n1': 256, 'n2': 0, 'ok': True}, 'modeFile': ini_mf, 'day': E + 1, 'tod': 1},
+                                            {'a': {'op': 'advance', 'a': '', 'p': '', 'n1': 0, 'n2': 0, 'ok': True}, 'modeFile': ini_mf, 'day': E + 9, 'tod': 1},
+                                            {'a': {'op': 'run', 'a': '', 'p': '', 'n1': 256, 'n2': 0, 'ok': True}, 'modeFile': ini_mf, 'day': E + 9, 'tod': 1}]})
     ntab = len(scenarios)
     sh = shifts(ctx, 16)
     for sc in scenarios:
@@ -213,7 +238,7 @@ def run(ctx):
     nwalk = ctx.pick(160, 4200)
     behaviours = 0
     for W in ((ctx.seed % 7, (ctx.seed + 3) % 7) if not th else tuple(range(7))):
-        scfg = cfg(props=False, W=W, collectors=('c1', 'c2'), setmodes=('on', 'off', 'local', 'auto', '', 'On'),
+        scfg = cfg(props=False, W=W, collectors=('c1', 'c2'), setmodes=('on', 'off', 'local', 'auto', '', 'On'), setpads=PADS,
                    setdays=(B - 1, B, B + 1, B + 2, B + 8, B + 9, B + 20), xs=(0, 300, 512, 513, 1023), rates=(0, 512, 1024),
                    maxrun=4, maxset=3, maxedit=2, maxcollect=4, maxadv=6)
         per = nwalk // (2 if not th else 7)
@@ -271,18 +296,23 @@ def run(ctx):
 
     # ---- 7. verdicts ----------------------------------------------------------------------
     bad_scen = set()
+    branch_off = set()
     ndiv = 0
     for idx, o in enumerate(obs):
         key = (o['id'], o['step'])
         clauses, diverges = verdicts.get(idx, ([], False))
         exp = expected.get(key)
-        if exp is not None and not diverges and not clauses and o['id'] not in bad_scen and norm_obs_state(o['t']) != exp:
+        if o['a']['op'] == 'set' and o['a']['p'] != '' and exp is not None and not clauses and scenarios[o['id']]['steps'][o['step']]['a']['ok'] != o['a']['ok']:
+            # a padded mode may be rejected or accepted; the code took the other branch than TLC's behaviour: from here on
+            # the behaviour's states are not the code's (each step is still judged from the observed predecessor)
+            branch_off.add(o['id'])
+        if exp is not None and o['id'] not in branch_off and not diverges and not clauses and o['id'] not in bad_scen and norm_obs_state(o['t']) != exp:
             # TLC's step function explains the observed successor from the observed predecessor, every earlier step
             # of this behaviour matched, and still the state differs from the one in TLC's behaviour: the harness
             # (concretization / abstraction) is inconsistent with itself
             raise Infra('C02 replay inconsistency in scenario %s step %s: observed %s, behaviour has %s' % (
                 o['id'], o['step'], json.dumps(norm_obs_state(o['t'])), json.dumps(exp)))
-        mfs = o['s']['modeFile']
+        mfs = o['s']['intent'] if o['s'].get('intent', NOINTENT)['k'] != 'none' else o['s']['modeFile']     # the governing mode (ConsentOps.tla, Gov)
         eff = mfs['w'] if (mfs['k'] == 'text' and mfs['w'] in ('on', 'off')) else 'local'
         for c in clauses:
             bad_scen.add(o['id'])
